@@ -84,13 +84,19 @@ def value_clauses(I, o, f, L, kind, info, scen, problems, undecided):
             return
         bc, later = own.bulk_content(I, st, chars, nbytes)
         if later:
-            problems.append(('content', 'element store inside [0,size) after the bulk write (%s)' % what))
+            undecided.append('the elements are (also) written one by one: not compared with the %s' % what)
             return
         if bc is None:
             ob = st.objs.get(chars.obj)
             if ob is not None and ob.attrs.get('entry') and kind2 == 'copy' and src is not None and src.obj == chars.obj:
                 return
-            problems.append(('content', 'storage never receives the %s' % what))
+            base = 0
+            if ob is not None and ob.kind == 'owner':
+                base = (st.flags.get('entry:' + str(ob.attrs.get('tag'))) or {}).get('obj_ver', 0)
+            if own.maybe_written(st, chars.obj, chars.off, chars.off + nbytes, base):
+                undecided.append('storage is written, but not by one bulk write: not compared with the %s' % what)
+            else:
+                problems.append(('content', 'storage never receives the %s' % what))
             return
         tag, doff, dlen = bc
         if tag[0] != kind2:
@@ -190,6 +196,9 @@ def analyse_method(run, m, F, E, L, f, rule_prefix='R05', fork_bad_alloc=False):
             # repair; the callers are analysed with the helper interpreted in place, here its findings are only noted
             if problems and getattr(f, 'access', 'public') != 'public' and not (is_ctor(f) or is_dtor(f)):
                 undecided = list(undecided) + ['%s (private helper: judged through its public callers)' % p[1][:160] for p in problems[:2]]
+                problems = []
+            if problems and own.path_abstracted(st):
+                undecided = list(undecided) + ['%s (after a loop that was abstracted: not a witness)' % p[1][:160] for p in problems[:2]]
                 problems = []
             from .common import abstract_atoms
             soft = [p for p in problems if abstract_atoms(p[1])]
